@@ -195,6 +195,9 @@ func (x *Exec) zzverif(name string, c *CallCtx) Value {
 		hi, _ := a[2].(IntV).T.ConstInt64()
 		x.setBounds(t, lo, hi, "harness range assumption @"+c.Pos())
 		return nil
+	case "NoMerge":
+		x.noMerge = true
+		return nil
 	case "MergeCallee":
 		x.localMerge[x.constStr(a[0], "function name")] = true
 		return nil
@@ -255,6 +258,8 @@ func (x *Exec) labelValue(label string, v Value) {
 		for i, b := range u.Bytes {
 			x.WantModel(fmt.Sprintf("%s[%d]", label, i), b)
 		}
+	case RealV:
+		x.WantModel(label, u.T)
 	case TimeV:
 		x.WantModel(label+".sec", u.Sec)
 		x.WantModel(label+".nsec", u.Nsec)
